@@ -43,6 +43,8 @@ type Op struct {
 }
 
 type PropSpec struct {
+	SleepAt int             `json:"sleepAt,omitempty"` // sleep in the k-th invocation after the first one that signalled a failure
+	SleepMs int             `json:"sleepMs,omitempty"`
 	Keyed   bool            `json:"keyed,omitempty"`
 	Cases   map[string][]Op `json:"cases,omitempty"` // 1-based index of the random test case -> script
 	Default []Op            `json:"default,omitempty"`
@@ -59,8 +61,8 @@ type Runner struct {
 	keyed   map[uint64][]Op
 	prop    *PropSpec
 	counter map[string]int // per-scenario counters (j-th call of an action etc.)
-	sleepAt int            // invocation number (after the first falsified one) in which to sleep past the shrink deadline
-	sleepMs int
+	curTop    int          // id of the property-function invocation in progress
+	firstFail int          // id of the first invocation that signalled a failure (0 = none yet)
 }
 
 func NewRunner(rec *Recorder) *Runner {
@@ -73,6 +75,7 @@ type inv struct {
 	r    *Runner
 	t    *rapid.T
 	id   int
+	top  int // id of the enclosing property-function invocation
 	vars map[string]any
 	last string
 }
@@ -105,8 +108,16 @@ func (r *Runner) Prop(p *PropSpec) func(*rapid.T) {
 		r.mu.Lock()
 		r.invSeq++
 		in := &inv{r: r, t: t, id: r.invSeq, vars: map[string]any{}}
+		in.top = in.id
+		r.curTop = in.id
 		r.mu.Unlock()
 		r.rec.Emit("inv.begin", F{"inv": in.id})
+		r.mu.Lock()
+		ff := r.firstFail
+		r.mu.Unlock()
+		if p.SleepAt > 0 && ff > 0 && in.id == ff+p.SleepAt {
+			time.Sleep(time.Duration(p.SleepMs) * time.Millisecond) // run past the minimization deadline at a chosen point
+		}
 		done := false
 		defer func() {
 			how := "unwind"
@@ -142,6 +153,13 @@ func (e customErr) Error() string { return e.s }
 
 func (in *inv) call(m string, site int, msg string) {
 	in.last = m
+	if m != "skip" {
+		in.r.mu.Lock()
+		if in.r.firstFail == 0 {
+			in.r.firstFail = in.top
+		}
+		in.r.mu.Unlock()
+	}
 	in.r.rec.Emit("call", F{"inv": in.id, "m": m, "site": site, "msg": Digest(msg)})
 }
 
@@ -200,6 +218,9 @@ func (in *inv) step(op *Op) {
 	case "error":
 		in.call("error", 0, fmt.Sprint("nonfatal", op.Text))
 		t.Error("nonfatal", op.Text)
+	case "error0": // a non-fatal failure with an empty message
+		in.call("error", 0, "")
+		t.Error()
 	case "fail":
 		in.call("fail", 0, "(*T).Fail() called")
 		t.Fail()
@@ -268,7 +289,7 @@ func (in *inv) step(op *Op) {
 			wg.Add(1)
 			go func() {
 				defer wg.Done()
-				sub := &inv{r: r, t: t, id: in.id, vars: in.vars}
+				sub := &inv{r: r, t: t, id: in.id, top: in.top, vars: in.vars}
 				sub.run(op.Body)
 			}()
 		}
@@ -291,10 +312,11 @@ func (in *inv) step(op *Op) {
 		for name, body := range op.Actions {
 			name, body := name, body
 			actions[name] = func(t2 *rapid.T) {
+				r.rec.Emit("draw", F{"inv": in.id, "label": "action", "val": fmtVal(name), "gen": "SampledFrom(actions)"}) // Repeat's own draw of the action
 				r.rec.Emit("sm.action.begin", F{"inv": in.id, "name": name})
 				done := false
 				defer func() { r.rec.Emit("sm.action.end", F{"inv": in.id, "name": name, "ret": done, "last": in.last}) }()
-				sub := &inv{r: r, t: t2, id: in.id, vars: in.vars}
+				sub := &inv{r: r, t: t2, id: in.id, top: in.top, vars: in.vars}
 				defer func() { in.last = sub.last }()
 				sub.last = ""
 				sub.run(body)
@@ -307,7 +329,7 @@ func (in *inv) step(op *Op) {
 				r.rec.Emit("sm.inv.begin", F{"inv": in.id})
 				done := false
 				defer func() { r.rec.Emit("sm.inv.end", F{"inv": in.id, "ret": done}) }()
-				sub := &inv{r: r, t: t2, id: in.id, vars: in.vars}
+				sub := &inv{r: r, t: t2, id: in.id, top: in.top, vars: in.vars}
 				defer func() { in.last = sub.last }()
 				sub.run(body)
 				done = true
@@ -332,7 +354,7 @@ func (in *inv) step(op *Op) {
 func (r *Runner) customBody(t *rapid.T, body []Op, ret *Built) any {
 	r.mu.Lock()
 	r.invSeq++
-	in := &inv{r: r, t: t, id: r.invSeq, vars: map[string]any{}}
+	in := &inv{r: r, t: t, id: r.invSeq, top: r.curTop, vars: map[string]any{}}
 	r.mu.Unlock()
 	r.rec.Emit("cinv.begin", F{"inv": in.id})
 	done := false
